@@ -305,7 +305,7 @@ Definition dispatch_command (now : Z) (s : server) (c : Z) (dbi : Z) (parts : li
         let d := get_db s dbi in
         match exec_db now d name parts oracle with
         | Some (r, d') =>
-            let ms := marks_strings d d' name parts r ++ marks_lists d d' name parts r ++ marks_streams d d' name parts r in
+            let ms := marks_strings d d' name parts r ++ marks_lists d d' name parts r ++ marks_streams now d d' name parts r in
             (r, set_trk (set_db s dbi d') dbi (mark_all (get_trk s dbi) ms))
         | None => (FError (bs "ERR unknown command '" ++ name ++ bs "'"), s)
         end
